@@ -7,3 +7,8 @@ pub assume_specification<T: Clone> [<[T] as std::borrow::ToOwned>::to_owned] (s:
 
 // used by rewrite rule R12 (Vec::retain as an explicit rebuild)
 pub assume_specification<T> [std::mem::replace] (dest: &mut T, src: T) -> (r: T) ensures r == *old(dest), *final(dest) == src;
+
+// A2: sort_by_key yields a permutation of the slice (that it is sorted / stable is not needed by any claimed clause)
+pub assume_specification<T, K: Ord, F: FnMut(&T) -> K>[ <[T]>::sort_by_key ](s: &mut [T], f: F)
+    requires forall|x: &T| #[trigger] call_requires(f, (x,)),
+    ensures final(s)@.to_multiset() == old(s)@.to_multiset();
